@@ -447,7 +447,11 @@ def rule_online(ctx, rep, rid):
         rep.touch(g)
         for o in offs:
             n += 1
-            after = g.reachable_set([o], avoid=lambda i: i in ons)
+            # `if (was_online) thread_offline(); ...; if (was_online) thread_online();`: the edges that contradict the (immutable) condition
+            # under which the thread went offline are not on any path that starts there
+            guard = set((pat.NEGP[a[0]], a[1], a[2]) for a in pat.dom_leaf_atoms(g, o) if a[0] in pat.NEGP)
+            contra = [(t.blk.id, s_) for t, s_, a in pat.branch_edges_on(g, lambda a: (a[0], a[1], a[2]) in guard)] if guard else []
+            after = g.reachable_set([o], avoid=lambda i: i in ons, edge_ok=pat.block_edge_filter(contra))
             bad = None
             for i in g.all_insts():
                 if i.id not in after or i is o:
